@@ -150,7 +150,14 @@ fn worker(prop: &str, tier: Tier, seed: u64, index: u64, of: u64) {
                 }
             }
         }
-        for (ci, c) in g.cases.iter().enumerate() {
+        // C18: each batch is run under its generated policy and then under a few follow-up
+        // schedules (PCT with change points spread over the number of decisions measured in the
+        // first run); the per-file alone results are shared through the reference memo
+        let mut queue: Vec<Case> = g.cases.clone();
+        let mut ci = 0;
+        while ci < queue.len() {
+            let c = &queue[ci].clone();
+            let is_followup = ci >= g.cases.len();
             stats.cases += 1;
             if c.faults.is_empty() && c.chunking.is_empty() {
                 stats.cases_fault_free += 1;
@@ -161,12 +168,29 @@ fn worker(prop: &str, tier: Tier, seed: u64, index: u64, of: u64) {
             let h = rng::hash_bytes(serde_json::to_string(c).unwrap().as_bytes());
             match c.evaluate(&mut stats) {
                 Verdict::Judged(findings) => {
+                    if prop == "C18" && !is_followup && findings.is_empty() && c.workers >= 2 && c.files.len() >= 2 && c.files.len() <= 16 {
+                        let horizon = stats.last_policy_decisions.max(4);
+                        let extra = if tier == Tier::Quick { 3 } else { 6 };
+                        for j in 0..extra {
+                            let mut v = c.clone();
+                            v.schedule = None;
+                            v.policy = scenario::Policy {
+                                kind: scenario::PolicyKind::Pct,
+                                seed: rng::mix(&[c.policy.seed, j, 0xF0110]),
+                                depth: if j % 3 == 2 { 2 } else { 1 },
+                                io_only: true,
+                                horizon,
+                            };
+                            queue.push(v);
+                            stats.followup_schedules += 1;
+                        }
+                    }
                     case_hashes.insert(h);
                     if is_nontrivial(c) {
                         nontrivial.insert(h);
                     }
                     // determinism spot check: same case, same verdict, same observables
-                    if (run + ci as u64) % 37 == 0 {
+                    if (run + ci as u64) % 37 == 0 && !is_followup {
                         let a = child::run_scenario(&c.to_scenario());
                         let b = child::run_scenario(&c.to_scenario());
                         stats.determinism_pairs += 1;
@@ -207,6 +231,7 @@ fn worker(prop: &str, tier: Tier, seed: u64, index: u64, of: u64) {
                     });
                 }
             }
+            ci += 1;
             if violations >= 3 {
                 break;
             }
@@ -685,6 +710,7 @@ fn write_evidence(
         "determinism_selftest_runs": det_runs,
         "determinism_spot_pairs": stats.determinism_pairs,
         "reference_results_reused_from_memo": stats.reference_memo_hits,
+        "followup_schedules_per_batch_case": stats.followup_schedules,
         "truncated_by_time_cap_or_violations": truncated,
         "worker_processes": procs,
         "known_findings_reported": known_lines,
